@@ -1,5 +1,6 @@
 import ZapVerif.Proofs.EntryWF
 import ZapVerif.Gen.JsonAdd
+import ZapVerif.Proofs.TransJsonSep
 /-! # C01 — the JSON encoder always emits one well-formed JSON object per entry, on one line
 
 Model: `Model/Esc.lean` (escaping), `Model/Enc.lean` (the streaming encoder over call trees), `Model/Entry.lean`
@@ -107,5 +108,113 @@ example : FieldOK (.arr [107] [AC.obj [OC.ns [34], OC.prim [10] (J.str (esc [255
   refine ⟨?_, ?_⟩
   · simp [WFa, WFo, WFj, esc_ok]
   · simp [NoCtlA, NoCtlO, NoCtlJ]
+
+end ZapVerif.C01
+
+/-! ## the model's separator logic IS the source (Go→GoMini translation, docs/TRANSLATOR.md)
+
+`Gen/TransJsonSep.lean` holds the bodies of `addElementSeparator`, `addKey` and `closeOpenNamespaces` as read from
+zapcore/json_encoder.go on this run, as GoMini terms.  The theorems below run them in the GoMini interpreter on ALL
+inputs (any buffer, any key, spaced or not, any number of open namespaces) and get exactly `Enc.sep`, `Enc.addKey`
+and the closing braces `runO`/`encodeEntry` append — the functions `stream_eq_out` is stated over.  A behaviour
+change of one of the Go functions changes the generated term and breaks the corresponding proof.
+Hypothesis: lengths fit Go's `int` (`< 2^63`).  `safeAddString` is an intrinsic here (it appends `esc key`). -/
+namespace ZapVerif.C01
+set_option linter.unusedSimpArgs false
+open ZapVerif ZapVerif.Esc ZapVerif.Enc ZapVerif.GoMini ZapVerif.TransJsonSep ZapVerif.Gen.TransJsonSep
+
+/-- body of `addElementSeparator`: ends (by `return` or by falling off the end) with `buf = sep sp buf`;
+    neither the index expression `enc.buf.Bytes()[last]` nor anything else can panic -/
+theorem addElementSeparator_exec_matches_source (buf : Bytes) (sp : Bool) (n : Int) (fuel : Nat) (hl : buf.length < 2^63) :
+    (exec X (fuel + 1) addElementSeparator_body ⟨[], encFld buf sp n⟩).fin = some ([], encFld (sep sp buf) sp n) := by
+  rw [exec_succ]
+  rcases List.eq_nil_or_concat buf with rfl | ⟨l, b, rfl⟩
+  · simp [addElementSeparator_body, wrap, sep]
+  · have hw : wrap .int (l.length : Int) = l.length := by
+      rw [wrap_int_id] <;> simp at hl ⊢ <;> omega
+    have hnn : ¬ ((l.length : Int) < 0) := by omega
+    have e1 : ((b.toNat : Int) = 123) ↔ b = 123 := by simpa using byte_eq_lit b 123 (by decide)
+    have e2 : ((b.toNat : Int) = 91) ↔ b = 91 := by simpa using byte_eq_lit b 91 (by decide)
+    have e3 : ((b.toNat : Int) = 58) ↔ b = 58 := by simpa using byte_eq_lit b 58 (by decide)
+    have e4 : ((b.toNat : Int) = 44) ↔ b = 44 := by simpa using byte_eq_lit b 44 (by decide)
+    have e5 : ((b.toNat : Int) = 32) ↔ b = 32 := by simpa using byte_eq_lit b 32 (by decide)
+    simp only [addElementSeparator_body, sep, skip]
+    simp [hw, hnn, indexVal_concat, Res.out_ite, Out.catchBrk_ite, Out.fin_ite, e1, e2, e3, e4, e5]
+    by_cases h1 : b = 123 <;> by_cases h2 : b = 91 <;> by_cases h3 : b = 58 <;> by_cases h4 : b = 44 <;>
+      by_cases h5 : b = 32 <;> cases sp <;> simp [h1, h2, h3, h4, h5]
+
+/-- `enc.addElementSeparator()` ≡ `Enc.sep`: for every buffer, the last byte decides -/
+theorem addElementSeparator_matches_source (buf : Bytes) (sp : Bool) (n : Int) (fuel : Nat) (hl : buf.length < 2^63) :
+    run X (fuel + 1) "addElementSeparator" [] (encFld buf sp n) = .done [] (encFld (sep sp buf) sp n) :=
+  run_of_fin X _ _ addElementSeparator [] _ _ _ rfl rfl (addElementSeparator_exec_matches_source buf sp n fuel hl)
+
+/-- body of `addKey` (calls the translated `addElementSeparator`) -/
+theorem addKey_exec_matches_source (buf k : Bytes) (sp : Bool) (n : Int) (fuel : Nat) (hl : buf.length < 2^63) :
+    (exec X (fuel + 2) addKey_body ⟨[("p0", .bytes k)], encFld buf sp n⟩).fin =
+      some ([], encFld (Enc.addKey sp buf k) sp n) := by
+  have hsep : ∀ σ : State, retK σ [] "addElementSeparator"
+      (exec X (fuel + 1) addElementSeparator_body ⟨[], encFld buf sp n⟩) = .normal { σ with fld := encFld (sep sp buf) sp n } :=
+    fun σ => retK_of_fin0 σ _ _ _ (addElementSeparator_exec_matches_source buf sp n fuel hl)
+  rw [exec_succ]
+  cases sp <;> simp [addKey_body, hsep, Enc.addKey, colon]
+
+/-- `enc.addKey(key)` ≡ `Enc.addKey`: separator, quoted escaped key, colon (and a space when spaced) -/
+theorem addKey_matches_source (buf k : Bytes) (sp : Bool) (n : Int) (fuel : Nat) (hl : buf.length < 2^63) :
+    run X (fuel + 2) "addKey" [.bytes k] (encFld buf sp n) = .done [] (encFld (Enc.addKey sp buf k) sp n) :=
+  run_of_fin X _ _ addKey [.bytes k] _ _ _ rfl rfl (addKey_exec_matches_source buf k sp n fuel hl)
+
+/-- the loop of `closeOpenNamespaces` appends one `}` per open namespace -/
+theorem closeOpenNamespaces_loop_matches_source (buf : Bytes) (sp : Bool) (n : Nat) (hn : n < 2^63) (fuel : Nat) :
+    execS X (exec X (fuel + n + 0)) closeOpenNamespaces_loop0 ⟨[("l0", .int (0 : Nat))], encFld buf sp n⟩ =
+      .normal ⟨[("l0", .int n)], encFld (buf ++ List.replicate n 125) sp n⟩ := by
+  unfold closeOpenNamespaces_loop0
+  refine (loop_fold (α := Nat × Bytes) X _ _ _ 0
+    (fun a => ⟨[("l0", .int a.1)], encFld a.2 sp n⟩) (fun a => a.1 ≤ n) (fun a => decide (a.1 < n))
+    (fun a => (a.1 + 1, a.2 ++ [125])) (fun a => (n, a.2 ++ List.replicate (n - a.1) 125)) (fun a => n - a.1)
+    ?_ ?_ ?_ ?_ ?_ ?_ n (0, buf) fuel (Nat.zero_le n) (by simp)).trans (by simp)
+  · intro a _; simp
+  · intro a fuel _ hc
+    have hc' : a.1 < n := by simpa using hc
+    have hw : wrap .int ((a.1 : Int) + 1) = ((a.1 + 1 : Nat) : Int) := by
+      rw [wrap_int_id] <;> simp at hn ⊢ <;> omega
+    simp [hw]
+  · intro a ha hc
+    have : a.1 < n := by simpa using hc
+    show a.1 + 1 ≤ n
+    omega
+  · intro a ha hc
+    have : a.1 < n := by simpa using hc
+    show n - (a.1 + 1) < n - a.1
+    omega
+  · intro a ha hc
+    have h1 : ¬ a.1 < n := by simpa using hc
+    have h2 : a.1 ≤ n := ha
+    have : a.1 = n := by omega
+    obtain ⟨i, b⟩ := a
+    simp_all
+  · intro a ha hc
+    have h1 : a.1 < n := by simpa using hc
+    obtain ⟨i, b⟩ := a
+    simp only [Prod.mk.injEq, true_and, List.append_assoc]
+    have : n - i = (n - (i + 1)) + 1 := by simp at h1; omega
+    rw [this, List.replicate_succ]; simp
+
+/-- `enc.closeOpenNamespaces()` ≡ what `runO` (`OC.obj`, `AC.obj`) and `encodeEntry` do with `openNs`:
+    append `openNs` closing braces and reset the counter; `fuel + n + 1` units of fuel suffice -/
+theorem closeOpenNamespaces_matches_source (buf : Bytes) (sp : Bool) (n : Nat) (hn : n < 2^63) (fuel : Nat) :
+    run X (fuel + n + 1) "closeOpenNamespaces" [] (encFld buf sp n) =
+      .done [] (encFld (buf ++ List.replicate n 125) sp 0) := by
+  refine run_of_fin X _ _ closeOpenNamespaces [] _ _ _ rfl rfl ?_
+  show (exec X (fuel + n + 1) closeOpenNamespaces_body ⟨[], encFld buf sp n⟩).fin = _
+  rw [exec_succ]
+  have := closeOpenNamespaces_loop_matches_source buf sp n hn fuel
+  simp at this
+  simp [closeOpenNamespaces_body, this]
+
+/-- non-vacuity / sanity: the interpreter really runs the generated term (closed instance, by evaluation) -/
+example : run X 3 "addKey" [.bytes [107]] (encFld [123, 34, 97, 34, 58, 49] true 0) =
+    .done [] (encFld [123, 34, 97, 34, 58, 49, 44, 32, 34, 107, 34, 58, 32] true 0) := by
+  have := addKey_matches_source [123, 34, 97, 34, 58, 49] [107] true 0 1 (by decide)
+  simpa [Enc.addKey, sep, skip, colon, esc, escape, plain] using this
 
 end ZapVerif.C01
